@@ -9,7 +9,7 @@ Requests (see exec/src/bin/c17.rs, lean/Compute/Drv/C17.lean):
   boxcoxs x lambda alpha     -> value | panic
   softmax2 c <vec>           -> softmax(x) followed by softmax(x .+ c)
   binom n k                  -> integer | panic        (guard => 0)
-  binomalt n k               -> integer                (implementation only: gamma based, inexact by design)
+  binomalt n k               -> integer | panic        (gamma based, inexact by design; model Model/BinomAlt.lean)
 """
 import math
 import struct
@@ -19,7 +19,7 @@ from .common import Failure, f2h, h2f, parse_reply, vec
 
 ID = "C17"
 BIN = "c17"
-PROOF_MODULES = ["Compute.Lemmas.C17Binom", "Compute.Props.C17"]
+PROOF_MODULES = ["Compute.Lemmas.C17Binom", "Compute.Props.C17", "Compute.Props.C17Alt"]
 REQUIRED_THEOREMS = [
     "Cv.C17.binom_exact", "Cv.C17.binom_symm", "Cv.C17.binom_pascal", "Cv.C17.binom_not_val_imp_large",
     "Cv.C17.logistic_neg", "Cv.C17.logistic_pos", "Cv.C17.logistic_lt_one", "Cv.C17.logistic_strictMono",
@@ -28,8 +28,14 @@ REQUIRED_THEOREMS = [
     "Cv.C17.softmax_eq_exp_div", "Cv.C17.softmax_args_nonpos", "Cv.C17.softmax_denominator_ge_one",
     "Cv.C17.boxcox_defined_iff", "Cv.C17.boxcox_formula", "Cv.C17.boxcox_zero", "Cv.C17.boxcox_limit",
     "Cv.C17.boxcoxShifted_defined_iff", "Cv.C17.boxcoxShifted_eq",
+    "Cv.C17.gamma_ratio_eq_choose", "Cv.C17.altValue_ideal", "Cv.C17.binomAlt_ideal", "Cv.C17.binomAlt_exact_of_acc",
+    "Cv.C17.binomAlt_exact_1e9", "Cv.C17.binomAlt_exact_rel_1e12", "Cv.C17.binomAlt_exact_of_relAcc",
+    "Cv.C17.binomCoeffAlt_exact_of_acc", "Cv.C17.binomCoeffAlt_exact_1e9",
+    "Cv.C17.binomAlt_symm", "Cv.C17.binomAlt_underflow",
 ]
-RULE = ("binom_coeff on every (n,k) with n <= 67 (2346 pairs, incl. k > n probes) and on n up to 2^64-1 around the "
+RULE = ("binom_coeff_alt on n < 176 (all k thorough, sampled quick), n up to 1e12 within a log-space error bound, huge n up to 2^64-1 and k > n, "
+        "all compared with the model; "
+        "binom_coeff on every (n,k) with n <= 67 (2346 pairs, incl. k > n probes) and on n up to 2^64-1 around the "
         "64-bit threshold of every k <= 32 (and the mirrored n-k), outcome class compared; logistic on a stratified "
         "sample of f32-representable x in +-745 (with -x for every x), logit on p in [0,1] and outside, both round "
         "trips, Box-Cox on x in (1e-6,1e6), lambda in +-5 incl. |lambda| < 1e-8 and shifts of both signs, softmax "
@@ -38,7 +44,11 @@ EXHAUSTIVE = {"quick": False, "thorough": False}
 NOT_PROVED = [
     "floating-point rounding of the transforms (covered by the mpmath oracle within forward-error bounds)",
     "accuracy of libm exp/ln/pow",
-    "binom_coeff_alt (gamma based) is only checked by the oracle within its documented inexactness",
+    "binom_coeff_alt: the accuracy of the Lanczos ln_gamma (hypothesis LogGammaAcc / LogGammaRelAcc of binomAlt_exact_of_acc; C09's "
+    "oracle enforces 1e-12 max(1,|ln Gamma|) and observes 2e-15, not proved) and the f64 rounding of the two subtractions and of exp "
+    "on top of it (added to the bound by the oracle); given delta = 1e-9 (C09's bound for every n <= 225) the result is proved exact "
+    "for C(n,k) <= 1.6e8 over the reals; symmetry is proved for commutative subtraction only (it fails at f64); for very large n "
+    "the absolute error of ln_gamma (~ u n ln n) exceeds 1 and the result is meaningless (oracle bound is vacuous there, tie only)",
     "softmax theorems take the fold seed as any lower bound of the entries (the reals have no -infinity)",
 ]
 TRUSTED = ["IEEE f64 arithmetic and glibc exp/log/pow shared by both executors",
@@ -49,6 +59,9 @@ EPS = 2.0 ** -52
 TINY = 2.0 ** -1074
 MINNORM = 2.0 ** -1022
 U64 = 1 << 64
+LNGAMMA_ENFORCED = 1e-12   # |ln_gamma - ln Gamma| <= 1e-12 max(1, |ln Gamma|): enforced by C09's oracle on every run (TOL_LNGAMMA there)
+LNGAMMA_OBSERVED = 2.1e-15 # the largest such error C09 observes
+BINOMALT_C = 32            # clause (c): |ln(result / C(n,k))| <= c (eps_lg + u) max(1, ln Gamma(n+1)); observed max 0.23 (seeds 1..5, thorough)
 
 
 # ------------------------------------------------------------------------------------------ helpers
@@ -109,6 +122,8 @@ def corpus():
         "binom 67 33", "binom 67 34", "binom 68 34", "binom 68 33", "binom 66 33", "binom 5 7",
         "binom 18446744073709551615 1", "binom 18446744073709551615 2", "binom 6074001000 2", "binom 6074001001 2",
         "binom 0 0", "binom 1 0", "binom 1 1",
+        # F52: gamma(n + 1) overflowed for n >= 171 and the result was 0 or 2^64 - 1
+        "binomalt 171 0", "binomalt 171 2", "binomalt 259 1", "binomalt 300 5", "binomalt 1000 3", "binomalt 171 171", "binomalt 200 100",
         "logit %s" % f2h(0.0), "logit %s" % f2h(1.0), "logit %s" % f2h(-0.0), "logit nan",
         "logit %s" % f2h(1.0000000000000002), "logit %s" % f2h(-5e-324),
         "logisticv %s" % vec([0.0, -0.0, float("inf"), float("-inf"), 745.0, -745.0, 709.0, -709.0, 710.0, -710.0]),
@@ -230,12 +245,32 @@ def gen(rng, tier):
     for _ in range(40 if quick else 400):
         n = rng.randint(0, U64 - 1)
         add("binom_random_huge", "binom %d %d" % (n, rng.randint(0, n)))
-    # gamma-based alternative (implementation only)
+    # gamma-based alternative (model: Model/BinomAlt.lean on top of the C09 gamma model)
     for n in range(0, 60):
         for k in range(0, n + 1):
             if quick and not rng.chance(0.3):
                 continue
             add("binomalt", "binomalt %d %d" % (n, k))
+    for n in range(60, 168):
+        ks = range(0, n + 1) if not quick else sorted({0, 1, 2, n, n - 1, n // 2, rng.randint(0, n), rng.randint(0, n), rng.randint(0, min(n, 12))})
+        for k in ks:
+            add("binomalt_60..167", "binomalt %d %d" % (n, k))
+    for n in range(168, 176):           # gamma(n + 1) overflows from n = 171 on (F52: the old body broke here)
+        for k in range(0, n + 1):
+            if quick and not (k < 6 or n - k < 6 or rng.chance(0.1)):
+                continue
+            add("binomalt_gamma_overflow_edge", "binomalt %d %d" % (n, k))
+    for _ in range(200 if quick else 6000):
+        n = rng.choice([rng.randint(176, 400), rng.randint(176, 2000), rng.randint(176, 100000), int(rng.loguniform(1e3, 1e12))])
+        k = rng.choice([0, 1, 2, 3, 4, 5, n, n - 1, n - 2, n - 3, rng.randint(0, min(n, 33)), n - rng.randint(0, min(n, 33)),
+                        rng.randint(0, min(n, 200)), rng.randint(0, n)])
+        add("binomalt_n>=176", "binomalt %d %d" % (n, k))
+    for _ in range(60 if quick else 1500):
+        n = rng.choice([rng.randint(1 << 40, 1 << 54), rng.randint(0, U64 - 1), U64 - 1, 1 << 63, (1 << 53) + 1, (1 << 53) + rng.randint(0, 64)])
+        k = rng.choice([0, 1, 2, 3, n, n - 1, n - 2, rng.randint(0, n), rng.randint(0, min(n, 200)), n - rng.randint(0, min(n, 200))])
+        add("binomalt_huge_n(bound vacuous)", "binomalt %d %d" % (n, k))
+    for n in list(range(0, 12)) + [60, 170, 171, 1000, 1 << 63, U64 - 2]:
+        add("binomalt_k_gt_n(model-only)", "binomalt %d %d" % (n, min(n + 1 + rng.randint(0, 3), U64 - 1)))
 
     # ---- logistic on f32-representable x in +-745, with -x next to x
     npts = 20000 if quick else 2000000
@@ -423,8 +458,6 @@ def strata(rng, add, quick):
 
 
 def model_line(line):
-    if line.startswith("binomalt"):
-        return None
     return line
 
 
@@ -490,16 +523,55 @@ def oracle(lines, impl):
         if op == "binomalt":
             n, k = int(t[1]), int(t[2])
             key = "binomalt:%d:%d" % (n, k)
-            c = math.comb(n, k)
+            if k > n:
+                continue            # `n - k` underflows (panic): outside the statement, model compared
+            c = comb_if_fits(n, k)
+            if c is None:
+                continue            # does not fit in 64 bits (the cast saturates): model compared
             if st != "ok":
                 fails.append(Failure(i, key, "binom_coeff_alt(%d,%d): %s" % (n, k, rep.strip())))
                 continue
             got = int(toks[0])
-            tol = max(2, int(c * 1e-9))     # documented: inexact "by 1 or 2" from n ~ 50 on
-            note("binomalt_rel", abs(got - c) / max(c, 1) / 1e-9)
-            note("binomalt_abs_n<50", float(abs(got - c)) if n < 50 else 0.0)
-            if abs(got - c) > tol:
-                fails.append(Failure(i, key, "binom_coeff_alt(%d,%d) = %d, exact %d: off by %d > %d" % (n, k, got, c, abs(got - c), tol), str(c)))
+            uu = 2.0 ** -53
+            lgs = [m.loggamma(mpf(v) + 1) for v in (n, k, n - k)]
+            L1 = max(mpf(1), lgs[0])
+            # (a) documented inexactness ("by 1 or 2" from n ~ 50 on): relative 1e-9, stated as such, wherever the old gamma route
+            #     was finite (n <= 170)
+            if n <= 170:
+                tol = max(2, int(c * 1e-9))
+                note("binomalt_rel_1e-9", abs(got - c) / max(c, 1) / 1e-9)
+                if abs(got - c) > tol:
+                    fails.append(Failure(i, key, "binom_coeff_alt(%d,%d) = %d, exact %d: off by %d > %d" % (n, k, got, c, abs(got - c), tol), str(c)))
+                    continue
+            # (b) exactness implied by Cv.C17.binomAlt_exact_of_relAcc: ln_gamma within LNGAMMA_ENFORCED max(1, ln Gamma) (C09's oracle
+            #     bound, re-checked there on every run) moves the exponent by at most the sum of the three bounds; at f64 the two
+            #     subtractions add half an ulp of |ln Gamma(n+1)| and of ln C, exp one ulp.  If C(n,k) (e^that - 1) < 1/2 the rounded
+            #     result must be C(n,k).
+            dl = LNGAMMA_ENFORCED * sum(max(mpf(1), v) for v in lgs) + uu * (lgs[0] + m.log(max(c, 1))) + 2 * uu
+            if c * m.expm1(dl) * 1.02 < 0.5:
+                note("binomalt_exact_clause_largest_C", float(c))
+                if got != c:
+                    fails.append(Failure(i, "binomalt:exact:%d:%d" % (n, k), "binom_coeff_alt(%d,%d) = %d but C(n,k) = %d and C(n,k) (e^%.3g - 1) < 1/2: "
+                                         "with ln_gamma accurate to %g max(1, ln Gamma) the rounded value must be exact" % (
+                                             n, k, got, c, float(dl), LNGAMMA_ENFORCED), str(c)))
+                    continue
+            # (c) every n (regression guard of F52, where the result was 0 or 2^64 - 1 for n >= 171): in log space the error is at most
+            #     BINOMALT_C (eps_lg + u) max(1, ln Gamma(n+1)) with eps_lg the observed ln_gamma accuracy, then .round() (half a unit)
+            #     and the saturating cast
+            B = BINOMALT_C * (LNGAMMA_OBSERVED + uu) * L1
+            if B < 40:
+                lo = mpf(c) * m.exp(-B) - 0.5
+                hi = mpf(c) * m.exp(B) + 0.5
+                if got >= c:
+                    d = m.log(max(mpf(got) - 0.5, mpf(c)) / c)
+                else:
+                    d = m.log(mpf(c) / (mpf(got) + 0.5))
+                note("binomalt_logerr/((eps_lg+u)lnGamma)", float(d / ((LNGAMMA_OBSERVED + uu) * L1)))
+                ok_ = (lo <= got <= hi) or (got == U64 - 1 and hi >= U64 - 1)
+                if not ok_:
+                    fails.append(Failure(i, "binomalt:bound:%d:%d" % (n, k), "binom_coeff_alt(%d,%d) = %d, exact %d: relative error %.3g exceeds "
+                                         "e^B - 1 with B = %d (eps_lg + u) ln Gamma(%d) = %.3g" % (
+                                             n, k, got, c, abs(got - c) / c, BINOMALT_C, n + 1, float(B)), str(c)))
             continue
         # ------------------------------------------------------------------ logistic
         if op == "logisticv":
